@@ -38,17 +38,26 @@ from .value import (
 )
 
 
-def _union_spelling(value: Value) -> tuple[tuple[Value, ...], ...]:
-    """The members of every union inside a value, in the order they are written.
+def _union_spelling(value: Value) -> tuple[object, ...]:
+    """What equality of values ignores but a bounds map keeps.
 
-    Unions compare equal regardless of the order of their members.
+    Unions compare equal regardless of the order of their members, and literals
+    such as (1, True) and (1, 1), or 0.0 and -0.0, compare equal without being
+    the same.
 
     """
-    return tuple(
-        tuple(subval.vals)
-        for subval in value.walk_values()
-        if isinstance(subval, MultiValuedValue)
-    )
+    spelling = []
+    for subval in value.walk_values():
+        if isinstance(subval, MultiValuedValue):
+            spelling.append(tuple(subval.vals))
+        elif isinstance(subval, KnownValue) and isinstance(
+            subval.val, (tuple, frozenset, float, complex)
+        ):
+            try:
+                spelling.append(repr(subval.val))
+            except Exception:
+                pass
+    return tuple(spelling)
 
 
 def get_mro(typ: Union[type, super]) -> Sequence[type]:
@@ -159,8 +168,9 @@ class TypeObject:
                 )
             # The protocol value is part of the key: a generic protocol shares one
             # TypeObject among all its parameterizations.
-            # So is the order in which unions are spelled: equal values may list
-            # their members in different orders, and the bounds map keeps that order.
+            # So is the way unions and literals are spelled: equal values may list
+            # their members in different orders or hold different equal objects, and
+            # the bounds map keeps them as written.
             cache_key = (
                 self_val,
                 other_val,
